@@ -317,19 +317,19 @@ def oracle_case(i, seed):
             a = vec(calc_field(pts, sc, illum_polarization=(1, 0), theory=Tmatrix(), **opt))
             b = vec(calc_field(pts, sc, illum_polarization=(1, 0), theory=Mie(False, False), **opt))
             dev = float(np.abs(a - b).max() / np.abs(b).max())
-            if dev > 2e-5:
+            if not (dev <= 2e-5):
                 viol.append(_v("C10:sphere-limit:field", "sphere x=%.3g: Tmatrix field differs from Lorenz-Mie by %.3g of the peak (azimuths %s)" % (x, dev, np.round(ph[:3], 2).tolist()), info))
             A = calc_scat_matrix(pts, sc, theory=Tmatrix(), **opt).values
             B = calc_scat_matrix(pts, sc, theory=Mie(False, False), **opt).values
             dev = float(np.abs(A - B).max() / np.abs(B).max())
-            if dev > 2e-5:
+            if not (dev <= 2e-5):
                 viol.append(_v("C10:sphere-limit:scat-matrix", "sphere x=%.3g: Tmatrix scattering matrix differs from Lorenz-Mie by %.3g" % (x, dev), info))
             # equal semi-axes spheroid, any orientation
             rot = rand_rot(rng)
             sp = Spheroid(n=nn, r=(x / K, x / K), rotation=rot, center=(0, 0, 0))
             c = vec(calc_field(pts, sp, illum_polarization=(1, 0), theory=Tmatrix(), **opt))
             dev = float(np.abs(c - b).max() / np.abs(b).max())
-            if dev > 2e-5:
+            if not (dev <= 2e-5):
                 viol.append(_v("C10:equal-axes-spheroid", "spheroid with equal semi-axes (rotation %s) differs from the sphere by %.3g" % (np.round(rot, 3).tolist(), dev), dict(rot=list(rot), **info)))
         elif kcase == 1:
             # inside the lens wrapper
@@ -342,7 +342,7 @@ def oracle_case(i, seed):
             a = vec(calc_field(det, sc, illum_polarization=(1, 0), theory=Lens(la, Tmatrix(), quad_npts_theta=40, quad_npts_phi=40), **opt))
             b = vec(calc_field(det, sc, illum_polarization=(1, 0), theory=Lens(la, Mie(False, False), quad_npts_theta=40, quad_npts_phi=40), **opt))
             dev = float(np.abs(a - b).max() / np.abs(b).max())
-            if dev > 5e-5:
+            if not (dev <= 5e-5):
                 viol.append(_v("C10:sphere-limit:lens", "sphere x=%.3g inside Lens(%.2f, .): Tmatrix differs from Lorenz-Mie by %.3g" % (x, la, dev), info))
         else:
             kind = "spheroid" if kcase in (2, 4) else "cylinder"
@@ -365,21 +365,21 @@ def oracle_case(i, seed):
             sc_ = float(np.abs(f0).max())
             # spin about the particle's own axis
             f1 = F((rot[0] + float(rng.uniform(-7, 7)), rot[1], rot[2]))
-            if float(np.abs(f1 - f0).max()) > 1e-6 * sc_:
+            if not (float(np.abs(f1 - f0).max()) <= 1e-6 * sc_):
                 viol.append(_v("C10:spin", "%s: spinning about its own axis changes the field by %.3g" % (kind, np.abs(f1 - f0).max() / sc_), info))
             # axis reversal
             f2 = F((rot[0], math.pi - rot[1], rot[2] + math.pi))
-            if float(np.abs(f2 - f0).max()) > 1e-5 * sc_:
+            if not (float(np.abs(f2 - f0).max()) <= 1e-5 * sc_):
                 viol.append(_v("C10:axis-reversal", "%s: reversing the axis direction changes the field by %.3g" % (kind, np.abs(f2 - f0).max() / sc_), info))
             # angles shifted by multiples of 2 pi
             f5 = F((rot[0], rot[1] + 2 * math.pi * int(rng.integers(-2, 3)), rot[2] + 2 * math.pi * int(rng.integers(-2, 3))))
-            if float(np.abs(f5 - f0).max()) > 1e-5 * sc_:
+            if not (float(np.abs(f5 - f0).max()) <= 1e-5 * sc_):
                 viol.append(_v("C10:angle-period", "%s: adding multiples of 2 pi to the Euler angles changes the field by %.3g" % (kind, np.abs(f5 - f0).max() / sc_), info))
             # mirror y -> -y : alpha -> -alpha, phi -> -phi, E_y -> -E_y (x-polarised light is mirror symmetric)
             ptsm = detector_points(theta=th, phi=(2 * math.pi - ph), r=rr)
             f3 = F((rot[0], rot[1], -rot[2]), ptsm).copy()
             f3[:, 1] *= -1
-            if float(np.abs(f3 - f0).max()) > 1e-5 * sc_:
+            if not (float(np.abs(f3 - f0).max()) <= 1e-5 * sc_):
                 viol.append(_v("C10:mirror", "%s: the mirror image (y -> -y) of particle and detector does not give the mirrored field (%.3g)" % (kind, np.abs(f3 - f0).max() / sc_), info))
             # Rayleigh limit of a small tilted spheroid: independent dipole formula
             if kcase == 4:
@@ -389,7 +389,7 @@ def oracle_case(i, seed):
                 fs = vec(calc_field(pts, Spheroid(n=nn.real, r=(rxy, rz), rotation=rot, center=(0, 0, 0)), illum_polarization=(1, 0), theory=Tmatrix(), **opt))
                 R = rayleigh_field(rxy, rz, nn.real, rot, th, ph, rr)
                 dev = float(np.abs(fs - R).max() / np.abs(R).max())
-                if dev > 1e-2:
+                if not (dev <= 1e-2):
                     viol.append(_v("C10:rayleigh", "small tilted spheroid (x=%.3g, aspect %.3g): field differs from the dipole formula by %.3g" % (xs, asp, dev), dict(xs=xs, asp=asp, **info)))
     except TmatrixFailure:
         return out
